@@ -386,8 +386,31 @@ Proof.
   rewrite ser_args_spec; try assumption; try lia. now rewrite <- app_assoc.
 Qed.
 
+(* the request fits EXACTLY when 6 + the argument encodings fit: otherwise some argument is reported *)
+Lemma ser_args_too_big cap maxargs : forall args i pos acc,
+  Forall wf_value args -> i + len args <= maxargs -> pos <= cap ->
+  cap < pos + args_size args ->
+  exists j, ser_args args i maxargs cap pos acc = ReqArgFail j.
+Proof.
+  induction args as [|a r IH]; intros i pos acc T Hi Hp Hbig.
+  - cbn [args_size fold_right] in Hbig. lia.
+  - cbn [ser_args]. rewrite len_cons in Hi. cbn [args_size fold_right] in Hbig. fold (args_size r) in Hbig.
+    replace (maxargs <=? i) with false by (symmetry; apply N.leb_gt; lia).
+    inversion T as [|? ? Ta Tr]; subst.
+    rewrite (ser_buf_spec a Ta (cap - pos)).
+    destruct (N.leb_spec (ser_size a) (cap - pos)); [|eauto].
+    apply IH; try assumption; rewrite <- ?ser_size_len; lia.
+Qed.
+
+Theorem request_too_big : forall cap idx args,
+  Forall wf_value args -> len args <= REQ_MAX_ARGS -> cap < 6 + args_size args -> 6 <= cap ->
+  exists j, build_request_cap cap idx args = ReqArgFail j.
+Proof.
+  intros cap idx args T Hn Hbig H6. unfold build_request_cap. apply ser_args_too_big; try assumption; lia.
+Qed.
+
 (* ---------- the co-process decodes exactly the arguments that were sent *)
-Lemma deser_args_ser : forall args rest, Forall wf_value args ->
+Lemma deser_args_ser : forall args rest, Forall transferable args ->
   deser_args (length args) (flat_map ser args ++ rest) = Some (Some args).
 Proof.
   induction args as [|a r IH]; intros rest T; [reflexivity|].
@@ -399,7 +422,7 @@ Proof.
 Qed.
 
 Lemma parse_request_built : forall idx args,
-  idx < 2 ^ 32 -> Forall wf_value args -> len args <= COP_ARGS_MAX ->
+  idx < 2 ^ 32 -> Forall transferable args -> len args <= COP_ARGS_MAX ->
   parse_request (le_bytes 4 idx ++ le_bytes 2 (len args) ++ flat_map ser args) = PReq idx (len args) args.
 Proof.
   intros idx args Hi T Hn. unfold parse_request.
@@ -418,20 +441,22 @@ Proof.
 Qed.
 
 (* ---------- the reply *)
-Lemma reply_payload_fits r : wf_value r -> ser_size r <= COP_REPLY_BIG_BUF -> reply_payload r = ser r.
+Lemma build_reply_fits r : wf_value r -> ser_size r <= COP_REPLY_BIG_BUF ->
+  build_reply (ORes r) = (COP_MSG_FFI_RESULT, ser r).
 Proof.
-  intros T H. unfold reply_payload. rewrite !(ser_buf_spec r T).
+  intros T H. cbn [build_reply]. rewrite !(ser_buf_spec r T).
   destruct (N.leb_spec (ser_size r) COP_REPLY_STACK_BUF); [reflexivity|].
   replace (ser_size r <=? COP_REPLY_BIG_BUF) with true by (symmetry; apply N.leb_le; exact H). reflexivity.
 Qed.
-Lemma reply_payload_too_big r : wf_value r -> COP_REPLY_BIG_BUF < ser_size r -> reply_payload r = [].
+Lemma build_reply_too_big r : wf_value r -> COP_REPLY_BIG_BUF < ser_size r ->
+  build_reply (ORes r) = (COP_MSG_FFI_ERROR, COP_REPLY_TOO_LARGE_MSG).
 Proof.
-  intros T H. unfold reply_payload. rewrite !(ser_buf_spec r T).
+  intros T H. cbn [build_reply]. rewrite !(ser_buf_spec r T).
   replace (ser_size r <=? COP_REPLY_STACK_BUF) with false by (symmetry; apply N.leb_gt; unfold COP_REPLY_STACK_BUF, COP_REPLY_BIG_BUF in *; lia).
   replace (ser_size r <=? COP_REPLY_BIG_BUF) with false by (symmetry; apply N.leb_gt; exact H). reflexivity.
 Qed.
 
-Lemma parse_reply_result r : wf_value r -> parse_reply COP_MSG_FFI_RESULT (ser r) = ROk r.
+Lemma parse_reply_result r : transferable r -> parse_reply COP_MSG_FFI_RESULT (ser r) = ROk r.
 Proof.
   intros T. unfold parse_reply. rewrite N.eqb_refl.
   pose proof (ser_nonempty r) as Hne.
@@ -440,39 +465,54 @@ Proof.
   destruct (deser_r (ser r)); try discriminate D. inversion D; subst. reflexivity.
 Qed.
 
-(* ---------- one extern call through a healthy co-process gives what the in-process call gives *)
+Lemma flat_len_args args : len (flat_map ser args) = args_size args.
+Proof.
+  induction args as [|a r IH]; [reflexivity|]. cbn [flat_map args_size fold_right]. rewrite len_app, <- ser_size_len.
+  fold (args_size r). now rewrite IH.
+Qed.
+
+(* ---------- one extern call through a healthy co-process gives what the in-process call gives, for every request and
+   result the protocol can carry (COP_MAX_PAYLOAD) *)
 Definition outcome_ok (o : outcome) : Prop :=
   match o with
-  | ORes r => wf_value r /\ ser_size r <= COP_REPLY_BIG_BUF
+  | ORes r => transferable r /\ ser_size r <= COP_MAX_PAYLOAD
   | OErr m => len m <= COP_MAX_PAYLOAD
   end.
 
+(* the generated buffer bounds are the protocol bound (these two facts break, as they must, if a fixed buffer comes back) *)
+Lemma req_buf_is_max : REQ_BUF_SIZE = COP_MAX_PAYLOAD. Proof. reflexivity. Qed.
+Lemma reply_buf_is_max : COP_REPLY_BIG_BUF = COP_MAX_PAYLOAD. Proof. reflexivity. Qed.
+
+Theorem request_fits : forall idx args,
+  Forall transferable args -> len args <= REQ_MAX_ARGS -> 6 + args_size args <= COP_MAX_PAYLOAD ->
+  build_request idx args = ReqOk (le_bytes 4 idx ++ le_bytes 2 (len args) ++ flat_map ser args).
+Proof.
+  intros idx args T Hn Hfit. unfold build_request. apply request_fits_when; [apply transferable_all_wf; exact T|exact Hn|].
+  rewrite req_buf_is_max. exact Hfit.
+Qed.
+
 Theorem call_transparent : forall (f : callee_t) idx args,
-  idx < 2 ^ 32 -> Forall wf_value args -> len args <= REQ_MAX_ARGS ->
-  6 + args_size args <= REQ_BUF_SIZE ->
+  idx < 2 ^ 32 -> Forall transferable args -> len args <= REQ_MAX_ARGS ->
+  6 + args_size args <= COP_MAX_PAYLOAD ->
   outcome_ok (f idx args) ->
   call_cop f idx args = call_inproc f idx args.
 Proof.
   intros f idx args Hi T Hn Hfit Ho. unfold call_cop, call_cop_cap, call_inproc.
-  rewrite request_fits_when by assumption.
+  fold (build_request idx args). rewrite request_fits by assumption.
   set (P := le_bytes 4 idx ++ le_bytes 2 (len args) ++ flat_map ser args).
   assert (HP : len P <= COP_MAX_PAYLOAD).
-  { unfold P. rewrite !len_app, !len_le_bytes. fold (len (flat_map ser args)).
-    assert (E : len (flat_map ser args) = args_size args).
-    { clear. induction args as [|a r IH]; [reflexivity|]. cbn [flat_map args_size fold_right]. rewrite len_app, <- ser_size_len.
-      fold (args_size r). now rewrite IH. }
-    rewrite E. unfold REQ_BUF_SIZE, COP_MAX_PAYLOAD in *. lia. }
+  { unfold P. rewrite !len_app, !len_le_bytes, flat_len_args. change (N.of_nat 4) with 4. change (N.of_nat 2) with 2. lia. }
   rewrite frame_recv by (exact HP || reflexivity). rewrite N.eqb_refl.
   unfold cop_side, P. rewrite parse_request_built by assumption.
-  destruct (f idx args) as [r|m]; cbn [build_reply outcome_ok] in *.
-  - destruct Ho as [Tr Hr]. rewrite reply_payload_fits by assumption.
-    rewrite frame_recv; [|reflexivity|rewrite <- ser_size_len; unfold COP_REPLY_BIG_BUF, COP_MAX_PAYLOAD in *; lia].
+  destruct (f idx args) as [r|m]; cbn [outcome_ok] in Ho.
+  - destruct Ho as [Tr Hr]. rewrite build_reply_fits; [|apply transferable_wf; exact Tr|rewrite reply_buf_is_max; exact Hr].
+    rewrite frame_recv; [|reflexivity|rewrite <- ser_size_len; exact Hr].
     rewrite parse_reply_result by exact Tr. reflexivity.
-  - rewrite frame_recv by (exact Ho || reflexivity).
+  - cbn [build_reply]. rewrite frame_recv by (exact Ho || reflexivity).
     unfold parse_reply. tagc. reflexivity.
 Qed.
 
-(* ---------- refutations of the full-strength statements *)
+(* ---------- what still is not transparent: the protocol bound itself *)
 Ltac nc := vm_compute; first [reflexivity | discriminate | (intro; discriminate)].
 Lemma len_repeat {A} (x : A) n : len (repeat x n) = N.of_nat n.
 Proof. unfold len. now rewrite repeat_length. Qed.
@@ -480,48 +520,64 @@ Lemma bytes_ok_repeat b n : b < 256 -> bytes_ok (repeat b n).
 Proof. intros H. induction n; simpl; constructor; auto. Qed.
 
 Definition big_str (n : N) : value := VStr (repeat 120 (N.to_nat n)).
-Lemma big_str_wf_value n : n + 5 < 2 ^ 32 -> wf_value (big_str n).
+Lemma big_str_wf n : n + 5 < 2 ^ 32 -> wf_value (big_str n).
 Proof.
   intros H. unfold wf_value, big_str. cbn [wf_valueb].
   rewrite len_repeat, N2Nat.id. apply andb_true_iff. split.
   - apply bytes_okb_spec. apply bytes_ok_repeat. reflexivity.
   - apply N.ltb_lt. exact H.
 Qed.
+Lemma big_str_transferable n : n + 5 < 2 ^ 32 -> transferable (big_str n).
+Proof.
+  intros H. unfold transferable, transferableb. apply andb_true_iff. split; [apply big_str_wf; exact H|reflexivity].
+Qed.
 Lemma big_str_size n : ser_size (big_str n) = 5 + n.
 Proof. unfold big_str. cbn [ser_size]. now rewrite len_repeat, N2Nat.id. Qed.
 
-(* a wf_value argument the 8 KiB request buffer cannot hold: a string of REQ_BUF_SIZE - 10 bytes *)
-Theorem request_fits_refuted :
-  exists args, Forall wf_value args /\ len args <= REQ_MAX_ARGS /\ exists idx, build_request idx args = ReqArgFail 0.
+(* a transferable argument larger than a message may be: a string of COP_MAX_PAYLOAD - 10 bytes *)
+Theorem request_above_max_refuted :
+  exists args, Forall transferable args /\ len args <= REQ_MAX_ARGS /\ exists idx, build_request idx args = ReqArgFail 0.
 Proof.
-  exists [big_str (REQ_BUF_SIZE - 10)]. split; [|split].
-  - constructor; [|constructor]. apply big_str_wf_value. reflexivity.
+  exists [big_str (COP_MAX_PAYLOAD - 10)]. split; [|split].
+  - constructor; [|constructor]. apply big_str_transferable. reflexivity.
   - unfold len, REQ_MAX_ARGS. cbn [length]. lia.
   - exists 0. unfold build_request, build_request_cap.
-    apply ser_args_first_fail; [apply big_str_wf_value; reflexivity|reflexivity|].
+    apply ser_args_first_fail; [apply big_str_wf; reflexivity|reflexivity|].
     rewrite big_str_size. reflexivity.
 Qed.
 
-(* a wf_value result the co-process cannot send back: it arrives as void *)
-Theorem reply_fits_refuted :
-  exists r, wf_value r /\
-    forall idx, idx < 2 ^ 32 -> call_cop (fun _ _ => ORes r) idx [] = CRes VVoid /\ call_inproc (fun _ _ => ORes r) idx [] = CRes r /\ r <> VVoid.
+(* a transferable result larger than a message may be: reported as an FFI error (no longer a silent void) *)
+Theorem reply_above_max_refuted :
+  exists r, transferable r /\
+    forall idx, idx < 2 ^ 32 ->
+      call_cop (fun _ _ => ORes r) idx [] = CErr COP_REPLY_TOO_LARGE_MSG /\ call_inproc (fun _ _ => ORes r) idx [] = CRes r.
 Proof.
-  exists (big_str COP_REPLY_BIG_BUF).
-  assert (T : wf_value (big_str COP_REPLY_BIG_BUF)) by (apply big_str_wf_value; reflexivity).
-  split; [exact T|]. intros idx Hi. split; [|split; [reflexivity|discriminate]].
-  unfold call_cop, call_cop_cap.
-  rewrite request_fits_when; [|apply Forall_nil|unfold len, REQ_MAX_ARGS; cbn [length]; lia|unfold REQ_BUF_SIZE; cbn; lia].
+  exists (big_str COP_MAX_PAYLOAD).
+  assert (T : transferable (big_str COP_MAX_PAYLOAD)) by (apply big_str_transferable; reflexivity).
+  split; [exact T|]. intros idx Hi. split; [|reflexivity].
+  unfold call_cop, call_cop_cap. fold (build_request idx []).
+  rewrite request_fits; [|apply Forall_nil|unfold len, REQ_MAX_ARGS; cbn [length]; lia|unfold COP_MAX_PAYLOAD; cbn; lia].
   cbn [flat_map]. rewrite app_nil_r.
   rewrite frame_recv; [|reflexivity|rewrite len_app, !len_le_bytes; nc].
   rewrite N.eqb_refl. unfold cop_side.
   pose proof (parse_request_built idx [] Hi (Forall_nil _)) as PR. cbn [flat_map] in PR. rewrite app_nil_r in PR.
-  rewrite PR by nc. cbn [build_reply].
-  rewrite reply_payload_too_big; [|exact T|rewrite big_str_size; reflexivity].
-  rewrite frame_recv; [|reflexivity|nc]. reflexivity.
+  rewrite PR by nc.
+  rewrite build_reply_too_big; [|apply transferable_wf; exact T|rewrite big_str_size, reply_buf_is_max; reflexivity].
+  rewrite frame_recv; [|reflexivity|nc]. unfold parse_reply. tagc.
+  f_equal. vm_compute. reflexivity.
 Qed.
 
-(* non-wf_value tags arrive as void *)
+(* a well-formed value nested deeper than the decoder accepts is refused: 257 levels *)
+Theorem nesting_above_max_refuted :
+  wf_value (nest 256) /\ vdepth (nest 256) = 257 /\ deser (ser (nest 256)) = None /\
+  transferable (nest 255) /\ deser (ser (nest 255)) = Some (nest 255, length (ser (nest 255))).
+Proof.
+  split; [vm_compute; reflexivity|]. split; [vm_compute; reflexivity|]. split; [vm_compute; reflexivity|].
+  assert (T : transferable (nest 255)) by (vm_compute; reflexivity).
+  split; [exact T|]. rewrite <- (app_nil_r (ser (nest 255))) at 1. apply deser_ser. exact T.
+Qed.
+
+(* non-transferable tags arrive as void *)
 Theorem other_becomes_void : forall t rest,
   t <> TAG_INT -> t <> TAG_FLOAT -> t <> TAG_BOOL -> t <> TAG_STRING -> t <> TAG_OPAQUE -> t <> TAG_ARRAY ->
   deser (ser (VOther t) ++ rest) = Some (VVoid, 1%nat).
